@@ -3,6 +3,75 @@ import HapVerif.Drv.C02
 namespace HapVerif.C11
 open HapVerif.Drv HapVerif.C02
 
+/-- `name~ip~port~E|D~weight`: a `server` line read back from the configuration files -/
+def parseEP5 (s : String) : Option EP :=
+  match s.splitOn "~" with
+  | [n, ip, port, en, w] => do
+    pure { name := unq n, ip := unq ip, port := ← port.toNat?, enabled := en = "E", weight := ← w.toInt?,
+           cookie := "", label := "", tref := "", puid := 0 }
+  | _ => none
+
+def showEP5 (e : EP) : String :=
+  "~".intercalate [q e.name, q e.ip, toString e.port, if e.enabled then "E" else "D", toString e.weight]
+
+def showEPs5 (l : List EP) : String := if l.isEmpty then "-" else ",".intercalate (l.map showEP5)
+
+def parseStep (s : String) : Option Step :=
+  match s.splitOn ":" with
+  | [o, rs] => do
+    let recr ← (rs.splitOn "&").mapM fun t => if t = "." then some none else (parseList parseEP t).map some
+    pure { recr := recr.map (·.map fresh), other := o = "1" }
+  | _ => none
+
+def showOut (reload : Bool) (ms : List Mid) (sys : Sys) : String :=
+  (if reload then "1" else "0") ++ "/" ++ "&".intercalate (ms.map fun m => showCmds m.cmds) ++ "/" ++
+    "&".intercalate (sys.map fun c => showEPs c.sb.back.eps) ++ "/" ++ "&".intercalate (sys.map fun c => showEPs5 (c.file.map proj))
+
+def parseObs (t : String) : Option Obs :=
+  match t.splitOn "/" with
+  | [r, _, mem, file] => do
+    if r ≠ "0" ∧ r ≠ "1" then none
+    let m ← (mem.splitOn "&").mapM (parseList parseEP)
+    let f ← (file.splitOn "&").mapM (parseList parseEP5)
+    pure { reload := r = "1", mem := m, file := f }
+  | _ => none
+
+/-- `multi <shards> <shard of each backend> <flags;flags;…> <step|step|…>`, step = `<other>:<r>&<r>…`, r = `.`
+(bystander) or the re-created endpoints; impl: per step `<reload>/<cmds>&…/<model eps>&…/<file eps>&…` joined by `;` -/
+def handleMulti (shardsT shardOfT cfgT stepsTxt impl : String) : Verdict :=
+  match shardsT.toNat?, (shardOfT.splitOn ".").mapM (·.toNat?), (cfgT.splitOn ";").mapM parseFlags,
+        (stepsTxt.splitOn "|").mapM parseStep with
+  | some shards, some shardOf, some fls, some (st0 :: steps) =>
+    if shardOf.length ≠ fls.length ∨ st0.recr.length ≠ fls.length ∨ st0.recr.any (·.isNone) ∨
+        steps.any (·.recr.length ≠ fls.length) then bad "multi-shape" else
+    let cfg : List SB := (fls.zip shardOf).map fun (f, k) =>
+      { back := { eps := [], dynUpdate := f.dyn, resolver := f.res, cookiePreserve := f.pres, initialWeight := f.iw },
+        minFree := f.minfree, block := f.block, shard := k }
+    let bs : List SB := (cfg.zip st0.recr).map fun (b, r) => { b with back := { b.back with eps := r.getD [] } }
+    let s0 := boot bs
+    let out0 := showOut true (s0.map fun c => { sb := c.sb, file := c.file, ok := false, cmds := [], flag := true }) s0
+    let run := steps.foldl (fun (acc : Sys × List String × Bool) st =>
+      let o := step .real (shards > 0) acc.1 st
+      (o.sys, acc.2.1 ++ [showOut o.reload o.mids o.sys], acc.2.2 || o.mids.any (·.panic))) (s0, [out0], false)
+    let mtxt := if run.2.2 then "PANIC" else ";".intercalate run.2.1
+    -- the Spec on the implementation's own observations
+    let obs := (impl.splitOn ";").map parseObs
+    let verdict : Option String :=
+      if impl = "PANIC" then some "panic" else
+      if (impl.splitOn ";").any (·.startsWith "E/") then some "update-or-load-error" else
+      if obs.length ≠ steps.length + 1 ∨ obs.any (·.isNone) then some "unparsable-implementation-output" else
+      let os := obs.filterMap id
+      (List.range os.length).findSome? fun i =>
+        match os[i]? with
+        | none => none
+        | some o =>
+          if i = 0 then stepOracle cfg none st0 o
+          else stepOracle cfg os[i - 1]? (steps.getD (i - 1) { recr := [] }) o
+    -- non-trivial: some update leaves a dynamic bystander alone
+    let triv := !(steps.any fun st => st.recr.any (·.isNone) ∧ (st.other ∨ st.recr.any (·.isSome)))
+    { model := mtxt, agree := mtxt = impl, oracle := verdict, trivial := triv }
+  | _, _, _, _ => bad "multi-parse"
+
 /-- `align <flags> <eps>` impl: `<eps after>`;  `fits <flags> <old> <cur>` and `noop <flags> <eps>`
 impl: `<0|1> <cmds> <cur'>` -/
 def handle (args : List String) (impl : String) : Verdict :=
@@ -15,6 +84,7 @@ def handle (args : List String) (impl : String) : Verdict :=
       { model := showEPs m, agree := m = after, oracle := alignOracle f.dyn eps after f.minfree f.block,
         trivial := after.length = eps.length }
     | _, _, _ => bad "parse"
+  | ["multi", sh, so, cf, st] => handleMulti sh so cf st impl
   | ["hist", fl, _shards, stepsTxt] =>
     match parseFlags fl, (stepsTxt.splitOn "|").mapM (parseList parseEP) with
     | some f, some steps =>
